@@ -31,6 +31,53 @@ def run(cmd, cwd=None, inp=None, timeout=60, env=None):
     return p.returncode, p.stdout, p.stderr
 
 
+def run_chunked(cmd, chunks, cwd=None, timeout=60, env=None, gap=0.08):
+    """feed the chunks one write() at a time with pauses, so that each read() of the child returns one chunk"""
+    p = subprocess.Popen(cmd, cwd=cwd, stdin=subprocess.PIPE, stdout=subprocess.PIPE, stderr=subprocess.PIPE, env=env, bufsize=0)
+    try:
+        time.sleep(gap)
+        for c in chunks:
+            if c:
+                try:
+                    p.stdin.write(c); p.stdin.flush()
+                except BrokenPipeError:
+                    break
+                time.sleep(gap)
+        try:
+            p.stdin.close()
+        except BrokenPipeError:
+            pass
+        out = p.stdout.read(); err = p.stderr.read()
+        p.wait(timeout=timeout)
+    finally:
+        if p.poll() is None:
+            p.kill()
+    return p.returncode, out, err
+
+
+def chunkings(data, sizes=None):
+    """the given read() sizes, else every way of cutting up to 4 bytes (one piece for longer inputs)"""
+    if sizes:
+        out, i = [], 0
+        for k in sizes:
+            out.append(data[i:i + k]); i += k
+        if i < len(data):
+            out.append(data[i:])
+        return [out]
+    if len(data) > 4:
+        return [[data]]
+    res = []
+    for mask in range(1 << max(0, len(data) - 1)):
+        cur, pieces = data[:1], []
+        for i in range(1, len(data)):
+            if mask >> (i - 1) & 1:
+                pieces.append(cur); cur = b""
+            cur += data[i:i + 1]
+        pieces.append(cur)
+        res.append(pieces)
+    return res
+
+
 TYPES = {"u8": 1, "bool": 1, "u32": 4, "i32": 4, "u64": 8, "i64": 8, "usize": 8}
 STAT12 = ["mode", "ino", "nlink", "uid", "gid", "size", "mtime", "mtime_nsec", "atime", "atime_nsec", "ctime", "ctime_nsec"]
 
@@ -325,17 +372,18 @@ def ws_reader(w, repo):
         script = os.path.join(d, "dump.sh")
         open(script, "w").write('#!/bin/sh\nfor a in "$@"; do printf "%s\\0" "$a" >> "' + out_path + '"; done\n')
         os.chmod(script, 0o755)
-        rc, out, e = run([xargs_bin(repo), script], cwd=d, inp=data)
-        got = open(out_path, "rb").read().split(b"\0")[:-1] if os.path.exists(out_path) else []
+        ms = __import__("re").search(r"split(\d+)", w.get("harness_name", ""))
         # non-UTF-8 bytes are replaced by U+FFFD by the reader's lossy conversion: compare modulo that
         want = [t.decode("utf-8", errors="replace").encode() for t in toks]
-        if err:
-            ok = rc == 1
-        else:
-            ok = got == want and rc == 0
-        if not ok:
-            return True, "input %r: xargs delivered %r (rc=%d), reference %r%s" % (data, got, rc, want, " + error" if err else "")
-        return False, "input %r behaves like the reference natively" % data
+        for pieces in chunkings(data, [int(c) for c in ms.group(1)] if ms else None):
+            if os.path.exists(out_path):
+                os.remove(out_path)
+            rc, out, e = run_chunked([xargs_bin(repo), script], pieces, cwd=d)
+            got = open(out_path, "rb").read().split(b"\0")[:-1] if os.path.exists(out_path) else []
+            ok = (rc == 1) if err else (got == want and rc == 0)
+            if not ok:
+                return True, "input %r delivered as read()s %r: xargs delivered %r (rc=%d), reference %r%s" % (data, pieces, got, rc, want, " + error" if err else "")
+        return False, "input %r behaves like the reference natively under every chunking tried" % data
 
 
 # ------------------------------------------------------------------------------------------ C10
@@ -659,6 +707,7 @@ def exec_cli(w, repo):
         for n in ("a b", "e'{}"):
             open(os.path.join(d, "r", n), "w").close()
         open(os.path.join(d, "r", "d", "-n"), "w").close()
+        open(os.path.join(os.fsencode(d), b"r", b"n\xe9"), "w").close()          # a name that is not UTF-8
         rec = os.path.join(d, "rec.sh")
         open(rec, "w").write('#!/bin/sh\nprintf "%s|" "$PWD" >> "$REC_LOG"; for a in "$@"; do printf "<%s>" "$a" >> "$REC_LOG"; done; echo >> "$REC_LOG"\nexit ${REC_RC:-0}\n')
         os.chmod(rec, 0o755)
@@ -667,14 +716,18 @@ def exec_cli(w, repo):
         def go(args, rc_env="0"):
             open(log, "w").close()
             rc, out, err = run([find_bin(repo), "r", "-sorted"] + args, cwd=d, env=dict(os.environ, REC_LOG=log, REC_RC=rc_env))
-            return rc, out.decode(errors="replace"), [l for l in open(log).read().splitlines()]
+            return rc, out.decode(errors="replace"), [l for l in open(log, errors="surrogateescape").read().splitlines()]
         rc, out, calls = go(["-exec", rec, "x{}y", "{}", ";"])
-        want = ["<x%sy><%s>" % (p, p) for p in ("r", "r/a b", "r/d", "r/d/-n", "r/e'{}")]
+        want = ["<x%sy><%s>" % (p, p) for p in ("r", "r/a b", "r/d", "r/d/-n", "r/e'{}", "r/n\udce9")]
         res.append(("-exec ; argv %r" % [c.split("|", 1)[1] for c in calls], [c.split("|", 1)[1] for c in calls] == want and rc == 0))
         rc, out, calls = go(["-exec", rec, "{}", ";", "-print"], "3")
         res.append(("failing -exec ; is false and leaves the status alone: rc=%d out=%r" % (rc, out), rc == 0 and out == ""))
         rc, out, calls = go(["-exec", rec, "fixed", "{}", "+"])
-        res.append(("-exec + one invocation with all paths: %r" % calls, len(calls) == 1 and calls[0].endswith("<fixed><r><r/a b><r/d><r/d/-n><r/e'{}>")))
+        res.append(("-exec + one invocation with all paths: %r" % calls, len(calls) == 1 and calls[0].endswith("<fixed><r><r/a b><r/d><r/d/-n><r/e'{}><r/n\udce9>")))
+        rc, out, calls = go(["-exec", "false", "{}", "+", "-exec", "true", "{}", "+"])
+        res.append(("a failed -exec + is not forgotten when a later batch action succeeds: rc=%d" % rc, rc != 0))
+        rc, out, calls = go(["(", "-type", "d", "-exec", "false", "{}", "+", ")", "-o", "(", "-type", "f", "-execdir", "true", "{}", "+", ")"])
+        res.append(("failed -exec + followed by a successful -execdir +: rc=%d" % rc, rc != 0))
         rc, out, calls = go(["-exec", rec, "{}", "+"], "1")
         res.append(("failing -exec + makes the status non-zero: rc=%d" % rc, rc != 0))
         rc, out, calls = go(["-execdir", rec, "{}", "+"])
@@ -706,10 +759,19 @@ def reader_bytes(w, repo):
             toks = [t for t in data.split(bytes([delim])) if t]
             err = False
         else:
-            rc, out, e = run([xargs_bin(repo), script], cwd=d, inp=data)
             toks, err, amb = _ref_tokens(data)
             if amb:
                 return None, "'' as a whole token: outside the claim"
+            want = [t.decode("utf-8", errors="replace").encode() for t in toks]
+            for pieces in chunkings(data, w.get("chunks")):
+                if os.path.exists(out_path):
+                    os.remove(out_path)
+                rc, out, e = run_chunked([xargs_bin(repo), script], pieces, cwd=d)
+                got = open(out_path, "rb").read().split(b"\0")[:-1] if os.path.exists(out_path) else []
+                ok = (rc == 1) if err else (got == want and rc == 0)
+                if not ok:
+                    return True, "input %r delivered as read()s %r: xargs delivered %r (rc=%d), reference %r%s" % (data, pieces, got, rc, want, " + error" if err else "")
+            return False, "input %r: like the reference under every chunking tried" % data
         got = open(out_path, "rb").read().split(b"\0")[:-1] if os.path.exists(out_path) else []
         want = [t.decode("utf-8", errors="replace").encode() for t in toks]
         ok = (rc == 1) if err else (got == want and rc == 0)
